@@ -387,7 +387,7 @@ def run(ctx):
     rng.shuffle(pool_idx)
     degenerate_first = [i for i in pool_idx if metas[i][0]["kind"] not in ("model-grid", "random-curve", "recorded")]
     others = [i for i in pool_idx if i not in set(degenerate_first)]
-    chosen = degenerate_first[: (60 if ctx.tier == "quick" else 400)] + others[: (40 if ctx.tier == "quick" else 500)]
+    chosen = degenerate_first[: (60 if ctx.tier == "quick" else 200)] + others[: (40 if ctx.tier == "quick" else 250)]
     for i in chosen:
         F = quantise(jobs[i]["force"])
         # an exactly flat baseline stays exactly flat; add variants with an integer offset
